@@ -315,6 +315,18 @@ theorem mpsc_wait_next_block_immediate (B n : Nat) (hB : 0 < B) (sched : List (T
       (run (init B n) sched).sh.next hb = some (hb + 1)) :=
   reach_wait_free_spins B n hB sched
 
+/-- **Slot reads come before the block is retired**: every non-atomic slot read of the consumer (`try_get`, `get`,
+    `peek`, the reads of `bulk_pop` and of `Drop`) is from the CURRENT head block, which is allocated and not (yet)
+    handed to `old_block`; every slot write of a producer goes to an allocated block. (The slot accesses are steps
+    of their own in the model and events of their own in the trace – hooks directly in front of the access inside
+    `BlockNode::set / try_get / get / peek` – so moving an access across the hand-over diverges from the model.) -/
+theorem mpsc_read_before_retire (B n : Nat) (hB : 0 < B) (sched : List (Tid × Env)) :
+    (∀ hb, readBlk ((run (init B n) sched).pcs 0) = some hb →
+        hb = (run (init B n) sched).sh.headBlk ∧ (run (init B n) sched).sh.live hb = true ∧
+        (run (init B n) sched).sh.old ≠ some hb) ∧
+    (∀ t v b i, (run (init B n) sched).pcs t = .pWrite v b i → (run (init B n) sched).sh.live b = true) :=
+  reach_read_before_retire B n hB sched
+
 /-! non-vacuity (block size 2, consumer 0 and producer 1) -/
 def G (t n : Nat) (e : Env) : List (Tid × Env) := (t, e) :: List.replicate n (t, .go)
 
@@ -322,12 +334,15 @@ def G (t n : Nat) (e : Env) : List (Tid × Env) := (t, e) :: List.replicate n (t
     the closer now sits in `wait_next_block` of block 0 while the consumer pops 7 and 8, finishes block 0 and moves it
     to `old_block` (the block stays allocated) -/
 def wCloser : List (Tid × Env) :=
-  G 0 4 .new ++ G 1 4 (.push 7) ++ G 1 4 (.push 8) ++ G 0 5 .pop ++ G 0 7 .pop
+  G 0 4 .new ++ G 1 5 (.push 7) ++ G 1 5 (.push 8) ++ G 0 6 .pop ++ G 0 8 .pop
 
 example : (run (init 2 2) wCloser).pcs 1 = .pWait 0 2 ∧ (run (init 2 2) wCloser).sh.tail = ⟨0, 1, true⟩ ∧
     (run (init 2 2) wCloser).sh.old = some 0 ∧ (run (init 2 2) wCloser).sh.headBlk = 1 ∧
     (run (init 2 2) wCloser).sh.live 0 = true ∧ (run (init 2 2) wCloser).sh.a.popped = [7, 8] ∧
     (run (init 2 2) wCloser).sh.next 0 = some 1 := by decide
+
+/-- the consumer at a slot read (hypothesis of `mpsc_read_before_retire`) -/
+example : (run (init 2 2) (G 0 4 .new ++ G 1 5 (.push 7) ++ G 0 3 .pop)).pcs 0 = .oRead false false 0 0 := by decide
 
 end mpscB
 
@@ -368,6 +383,20 @@ theorem spsc_drop_frees_all (B : Nat) (hB : 0 < B) (sched : List Act)
     (hi : (run (init B) sched).cp = .idle) : ∀ b, (run (init B) sched).sh.live b = false :=
   reach_drop_frees_all B hB sched hc ha hi
 
+/-- **Slot reads come before the block is released** (the clause a `copy_to_bulk` after the `head.block` store
+    violates): the consumer reads a slot only from the CURRENT head block – i.e. before the `head.block` store that
+    releases the block to the producer's cache –, a block that `alloc_node` recycles is never the head block, and the
+    producer's slot write goes to the tail block at index `tail.index` (outside `[head, tail)`). The slot accesses are
+    steps of their own in the model and events of their own in the trace (hooks directly in front of the access
+    inside `BlockNode::set / get / peek`), so a copy that runs after the hand-over diverges from the model. -/
+theorem spsc_read_before_release (B : Nat) (hB : 0 < B) (sched : List Act) :
+    (∀ hb, readBlk (run (init B) sched).cp = some hb →
+        hb = (run (init B) sched).sh.headBlk ∧ (run (init B) sched).sh.live hb = true) ∧
+    (∀ f, recycled (run (init B) sched).pp = some f → f ≠ (run (init B) sched).sh.headBlk) ∧
+    (∀ v tb pi, (run (init B) sched).pp = .pWr v tb pi →
+        tb = (run (init B) sched).sh.tailBlk ∧ pi = (run (init B) sched).sh.tailIdx) :=
+  reach_read_before_release B hB sched
+
 /-! non-vacuity (block size 2) -/
 def P (n : Nat) (e : Env) : List Act := .prod e :: List.replicate n (.prod .go)
 def C (n : Nat) (e : Env) : List Act := .cons e :: List.replicate n (.cons .go)
@@ -375,17 +404,23 @@ def C (n : Nat) (e : Env) : List Act := .cons e :: List.replicate n (.cons .go)
 /-- new; push 1; push 2 (block full → fresh block 1); pop; pop (head moves to block 1); push 3; push 4 (block full →
     `alloc_node` re-reads `head.block` and RECYCLES block 0 as the new tail block) -/
 def wRecycle : List Act :=
-  C 2 .new ++ P 4 (.push 1) ++ P 11 (.push 2) ++ C 5 .pop ++ C 7 .pop ++ P 4 (.push 3) ++ P 12 (.push 4)
+  C 2 .new ++ P 5 (.push 1) ++ P 12 (.push 2) ++ C 6 .pop ++ C 8 .pop ++ P 5 (.push 3) ++ P 13 (.push 4)
 
 example : (run (init 2) wRecycle).sh.nb = 2 ∧ (run (init 2) wRecycle).sh.tailBlk = 0 ∧ (run (init 2) wRecycle).sh.headBlk = 1 ∧
     (run (init 2) wRecycle).sh.tailIdx = 4 ∧ (run (init 2) wRecycle).sh.a.A = [3, 4] ∧
     (run (init 2) wRecycle).sh.a.popped = [1, 2] := by decide
 
 /-- … then a bulk_pop and `Drop`: everything is freed (hypotheses of `spsc_drop_frees_all`) -/
-example : (run (init 2) (wRecycle ++ C 7 .bulk ++ C 20 .drop)).sh.created = true ∧
-    (run (init 2) (wRecycle ++ C 7 .bulk ++ C 20 .drop)).sh.alive = false ∧
-    (run (init 2) (wRecycle ++ C 7 .bulk ++ C 20 .drop)).cp = .idle ∧
-    (run (init 2) (wRecycle ++ C 7 .bulk ++ C 20 .drop)).sh.a.popped = [1, 2, 3, 4] := by decide
+example : (run (init 2) (wRecycle ++ C 9 .bulk ++ C 20 .drop)).sh.created = true ∧
+    (run (init 2) (wRecycle ++ C 9 .bulk ++ C 20 .drop)).sh.alive = false ∧
+    (run (init 2) (wRecycle ++ C 9 .bulk ++ C 20 .drop)).cp = .idle ∧
+    (run (init 2) (wRecycle ++ C 9 .bulk ++ C 20 .drop)).sh.a.popped = [1, 2, 3, 4] := by decide
+
+/-- the consumer in the middle of `copy_to_bulk` (one value copied, the second slot read pending), and the producer
+    at the point where `alloc_node` recycles block 0 (hypotheses of `spsc_read_before_release`) -/
+example : (run (init 2) (C 2 .new ++ P 5 (.push 1) ++ P 12 (.push 2) ++ C 4 .bulk)).cp = .bRd false 0 1 2 [1] := by decide
+example : recycled (run (init 2) (C 2 .new ++ P 5 (.push 1) ++ P 12 (.push 2) ++ C 6 .pop ++ C 8 .pop ++ P 5 (.push 3) ++
+    P 7 (.push 4))).pp = some 0 := by decide
 
 end spscB
 
